@@ -248,7 +248,7 @@ class TickRateAttribute:
   _TICK_RATE_RE = re.compile(r"(\d+)", re.ASCII)
 
   @staticmethod
-  def extract(ttml_element) -> int:
+  def extract(ttml_element) -> typing.Union[int, Fraction]:
 
     tr = ttml_element.attrib.get(TickRateAttribute.qn)
 
@@ -262,7 +262,13 @@ class TickRateAttribute:
 
       LOGGER.error("ttp:tickRate invalid syntax")
 
-    # default value
+    # default value: the effective frame rate if ttp:frameRate is specified, 1 otherwise (sub-frames are not supported)
+
+    fr = ttml_element.attrib.get(FrameRateAttribute.frame_rate_qn)
+
+    if fr is not None and FrameRateAttribute._FRAME_RATE_RE.fullmatch(fr) and int(fr) > 0:
+
+      return FrameRateAttribute.extract(ttml_element)
 
     return 1
 
@@ -411,7 +417,7 @@ class FrameRateAttribute:
 @dataclass
 class TemporalAttributeParsingContext:
   frame_rate: Fraction = Fraction(30, 1)
-  tick_rate: int = 1
+  tick_rate: typing.Union[int, Fraction] = 1
 
 class TimeExpressionSyntaxEnum(Enum):
   """IMSC time expression configuration values"""
